@@ -25,8 +25,8 @@ guard treats a backslash as an escape if and only if the rule does (today neithe
 (`TOP 4294967296` must be an error, not 0).
 (j) a string literal that is never closed is not a string: the tokenizer's parse_string_literal returns a StringLiteral only on a path that consumed the closing quote.
 """
-FLOOR = 11
-REQUIRED = ["C17.a1", "C17.a2", "C17.b", "C17.c", "C17.d", "C17.e", "C17.f", "C17.g", "C17.h", "C17.i", "C17.j", "C17.k"]
+FLOOR = 12
+REQUIRED = ["C17.a1", "C17.a2", "C17.b", "C17.c", "C17.d", "C17.e", "C17.f", "C17.g", "C17.h", "C17.i", "C17.j", "C17.k", "C17.l"]
 
 PANIC = re.compile(r"(option::Option::(unwrap|expect|unwrap_unchecked)|result::Result::(unwrap|expect|unwrap_err|expect_err|unwrap_unchecked)|"
                    r"panicking::(panic\w*|unreachable_display|assert_failed\w*|begin_panic\w*)|rt::(begin_panic|panic_fmt)\w*)$")
@@ -331,7 +331,22 @@ def run(ctx):
             inst.sites.append("cycle %s%s" % ([n.split("::")[-1] for n in names], " (depth-guarded)" if guarded else ""))
             if not guarded:
                 if rep in BOUNDED_CYCLES:
-                    ctx.note("parser cycle %s: %s" % (names, BOUNDED_CYCLES[rep]))
+                    # the recorded reason is a structural fact of batch::parse: the text it rebuilds for the inner
+                    # parse_command never contains '[' (no push / push_str of a constant holding one)
+                    bp = F.fn("command::parser::commands::batch::parse")
+                    opens = []
+                    for c_ in bp.calls:
+                        if c_.cleanup or not re.search(r"String::(push|push_str)$", c_.nname) or len(c_.args) < 2:
+                            continue
+                        a1 = c_.args[1]
+                        ks = [str(a1.get("k"))] if isinstance(a1, dict) and a1.get("k") is not None else []
+                        ks += [str(l[1]) for l in bp.origins(a1) if l[0] == "const"]
+                        if any("[" in k_ for k_ in ks):
+                            opens.append(c_)
+                    if opens:
+                        bad.append(("unbounded-recursion:batch-nesting", "batch::parse copies '[' into the text it hands back to parse_command: BATCH [ BATCH [ ... nests without bound (one native frame pair per level, the remaining text re-tokenised at each)", sp(bp, opens[0].bb)))
+                    else:
+                        ctx.note("parser cycle %s: %s" % (names, BOUNDED_CYCLES[rep]))
                 elif rep in ARMED_CYCLES:
                     bad.append(("unbounded-recursion:%s" % rep, "recursive descent %s has no depth bound: nesting in the input is turned into native stack depth" % [n.split("::")[-1] for n in names], None))
                 else:
@@ -744,6 +759,38 @@ def run(ctx):
                 bad.append(("json-number-char-unhandled:%s" % ch, "tokenize has no arm for %r: a STORE payload holding a JSON number written with it (1e+300) is rejected as 'invalid character during tokenization' although the value conforms to the schema" % ch, sp(b, i_)))
         return bad
     ctx.run("C17.k", "K6 TABLE", "command::parser::tokenizer::tokenize", "every character of a JSON number is a known token character", k_)
+
+    def l_(inst):
+        # byte-indexed String / str operations panic off a char boundary: under parse_command the index must come from the
+        # text itself (len / find / char_indices ...), never from a constant or plain arithmetic
+        cg = CallGraph(F)
+        root = "command::parser::command::parse_command"
+        if root not in cg.nodes:
+            raise AnchorMissing(root)
+        seen = cg.reachable([root])
+        RISK = re.compile(r"String::(truncate|split_off|drain|replace_range|insert|insert_str|remove)$|str::(split_at|split_at_mut)$")
+        SAFE = re.compile(r"::(len|find|rfind|char_indices|floor_char_boundary|ceil_char_boundary|position|rposition|len_utf8|match_indices|rmatch_indices|find_map|next|offset_from)$")
+        bad, n = [], 0
+        for k in sorted(seen):
+            if k not in cg.nodes or not F.has(k):
+                continue
+            b = F.fn_exact(k)
+            for c in b.calls:
+                if c.cleanup or not RISK.search(c.nname) or len(c.args) < 2:
+                    continue
+                n += 1
+                L = arith_origins(b, c.args[1])
+                inst.sites.append(sp(b, c.bb) + " " + c.nname.split("::")[-1] + " at " + fmt_leaves(L)[:60])
+                guarded = any(not g.cleanup and g.nname.endswith("is_char_boundary") and any(b.dominates_edge(e, c.bb) for e in bool_result_edge(b, g, True)) for g in b.calls)
+                if guarded:
+                    continue
+                from_text = [l for l in L if l[0] == "call" and SAFE.search(norm_path(l[1]))]
+                other = [l for l in L if l not in from_text and not (l[0] == "const" and str(l[1]).split("_")[0] in ("0", "1"))]
+                if not from_text or other:
+                    bad.append(("byte-index-off-boundary:%s" % norm_path(k).split("::")[-1], "%s calls %s on client text at %s: when that byte is inside a multi-byte character the parser panics instead of returning an error" % (norm_path(k), c.nname.split("::")[-1], fmt_leaves(L)[:80]), sp(b, c.bb)))
+        inst.sites.append("%d byte-indexed string operations under parse_command (%d bodies)" % (n, len(seen)))
+        return bad
+    ctx.run("C17.l", "K7 PROV", "byte-indexed string operations under parse_command", "a byte position handed to truncate / split_at comes from the text", l_)
 
 
 # cycles whose overflow was reproduced against the real code (DESIGN.md §4c); others are reported as notes until triaged
